@@ -552,7 +552,7 @@ def type_dispatch(c, chk):
     for fname, need in sorted(VALUE_TYPES.items()):
         fn = c.need(fname)
         handled = set()
-        for ins in fn.instrs():
+        for fn_, ins in [(g_, i_) for g_ in c.deep_funcs(fn) for i_ in g_.instrs()]:
             src = None
             if ins.op == 'switch':
                 src = ins.ops[0]
@@ -564,12 +564,12 @@ def type_dispatch(c, chk):
                 continue
             if src.kind != 'reg':
                 continue
-            d = fn.defs.get(src.name)
+            d = fn_.defs.get(src.name)
             if d is None or d.op != 'load' or d.ops[0].kind != 'reg':
                 continue
-            g = fn.defs.get(d.ops[0].name)
+            g = fn_.defs.get(d.ops[0].name)
             if g is None or g.op != 'getelementptr' or g.srcty.strip() != '%struct.cfg_opt_t' or len(g.ops) < 3 \
-                    or g.ops[2].kind != 'int' or fn.module.field_name('%struct.cfg_opt_t', g.ops[2].ival) != 'type':
+                    or g.ops[2].kind != 'int' or fn_.module.field_name('%struct.cfg_opt_t', g.ops[2].ival) != 'type':
                 continue
             for v in vals:
                 if v in byval:
